@@ -177,6 +177,12 @@ func runR06_10(c *kit.Ctx) {
 				switch u := r.(type) {
 				case *ssa.DebugRef, *ssa.Return, *ssa.Phi:
 					continue
+				case *ssa.Store:
+					// `v, err = f()` into a local variable that lives in memory (captured by a
+					// closure / address taken): a copy, not a use
+					if al, ok := u.Addr.(*ssa.Alloc); ok && u.Val == ssa.Value(val) && al.Comment != "" && al.Comment != "complit" && al.Comment != "varargs" {
+						continue
+					}
 				case *ssa.BinOp:
 					if u.Op == token.EQL || u.Op == token.NEQ {
 						continue
